@@ -3,10 +3,11 @@ from lib.core import Kani, Verus, Fn, VERUS_DIR
 from lib import vx
 from verus import c11_skip_targets as st
 from verus import c11_is_ancestor as ia
+from props.C04 import LCA_UNIT
 
 PROPERTY = 'C11'
 LEVEL = 'proof'
-HARNESS_FILES = ['verus/c11_skip_targets.py', 'verus/c11_is_ancestor.py']
+HARNESS_FILES = ['verus/c11_skip_targets.py', 'verus/c11_is_ancestor.py', 'verus/c04_lca.py']
 
 
 def build_ia():
@@ -27,6 +28,7 @@ def build():
 
 
 UNITS = [
+    LCA_UNIT,
     Verus('c11_skip_targets', build, min_verified=6,
           contract='skip_target_boundaries(n): never Err (no Bug reachable, no overflow); strictly ascending; every target in [1, n); empty iff n < 2; '
                    'first = n/2; each next target halves the remaining gap; the last gap is <= MIN_SKIP_GAP; terminates. All n in u64.'),
@@ -38,15 +40,16 @@ UNITS = [
 ]
 TRUSTED = ['MaxCut is a u64 newtype (shim)',
            'graph well-formedness axioms (assumed contract of Storage / Segment / get_heads, 10 admitted proof fns): max cut strictly grows along ancestry, transitivity, in-segment order, '
-           'cross-segment ancestry passes through the segment priors, skip entries are spine nodes (DESIGN §4 C11) — the last one is what LinearStorage::build_skip_list must establish and is NOT verified',
+           'cross-segment ancestry passes through the segment priors, skip entries are spine nodes (A4). A4 is no longer a free assumption: unit c04_lca proves that LinearStorage::build_skip_list '
+           'establishes it for every new segment from A4 of the existing segments and from lca_pair returning a cut — an induction over the write order whose glue (LinearStorage::write passes the perspective\'s prior and the braid\'s LCA) is read, not checked',
            'TraversalQueue::{push, pop} contracts as proved in unit c21_traversal_queue, restated over the one-entry-per-segment view (restatement argued, not mechanically linked)']
 ASSUMPTIONS = ['Segment::get_by_address is assumed to find the addressed command exactly when this segment holds it (external_body contract); TraversalQueue::push is assumed not to overflow its capacity',
-               'that the real LinearStorage satisfies the graph axioms — in particular the spine property of the skip lists it builds — is argued in DESIGN.md, not machine-checked']
+               'that the real LinearStorage satisfies the structural graph axioms A1-A3, A5, A6 (max cut grows along ancestry, segments are linear, cross-segment ancestry goes through priors, rooted) is argued in DESIGN.md, not machine-checked']
 EXPLANATION = 'Ancestry search proved correct and terminating over an abstract well-formed graph; skip-list target computation proved for all n; both on extracted text.'
 MANIFEST = {
     'text': 'Proof relative to stated graph axioms: the extracted Storage::is_ancestor terminates and answers exactly "proper ancestor" on every well-formed graph, with skip jumps '
             'never changing the answer, and lookup by address (search_queued, get_location, get_location_from) finds a command exactly when it is reachable from the committed heads / the start and returns its location '
-            '(Verus, unbounded, 37 obligations); the skip-list boundary computation is verified for every n. That LinearStorage builds skip lists with the spine property is not machine-checked.',
+            '(Verus, unbounded, 37 obligations); the skip-list boundary computation is verified for every n. The spine property of skip lists is established by the extracted build_skip_list / walk_collecting_skips / lca_pair (unit c04_lca).',
     'note': 'PROVED-LOCAL: modular proof over assumed Storage/Segment graph axioms and the TraversalQueue contracts of C21.',
     'technique': 'Verus on the extracted Storage::is_ancestor, search_queued, get_location, get_location_from and skip_target_boundaries',
 }
